@@ -391,7 +391,7 @@ func C14(rep *ev.Reporter, tier string) {
 					}
 				}
 				for k := 1; k <= P; k++ {
-					for kind := 1; kind <= 4; kind++ {
+					for kind := 1; kind <= 6; kind++ {
 						if !match(k, kind) {
 							continue
 						}
@@ -425,6 +425,6 @@ func C14(rep *ev.Reporter, tier string) {
 		rep.Exhaustive = false
 		rep.Coverage["caps_hit"] = "time budget"
 	}
-	rep.Coverage["rule"] = "2-rule programs: rule 1 over 14 condition shapes (probe alone / left / right of &&, probe shared with the other rule, healthy, nil pointer, index and key out of range, missing fact, kind mismatch, modulo by zero, unknown field, unknown method, two-result method) x 7 action lists (probe first/middle/last between assignments; nil pointer, index, kind mismatch, unknown field in an action), rule 2 over 6 companions (thorough: 56 companions + 3-rule programs); for each program x both values of ReturnErrOnFailedRuleEvaluation x every static rule order: the fault-free run, then one run for EVERY probe invocation index of that run x 4 failure kinds (panic(string), panic(error), runtime nil dereference, runtime index out of range). Non-trivial: a run in which a condition or action really failed."
+	rep.Coverage["rule"] = "2-rule programs: rule 1 over 14 condition shapes (probe alone / left / right of &&, probe shared with the other rule, healthy, nil pointer, index and key out of range, missing fact, kind mismatch, modulo by zero, unknown field, unknown method, two-result method) x 7 action lists (probe first/middle/last between assignments; nil pointer, index, kind mismatch, unknown field in an action), rule 2 over 6 companions (thorough: 56 companions + 3-rule programs); for each program x both values of ReturnErrOnFailedRuleEvaluation x every static rule order: the fault-free run, then one run for EVERY probe invocation index of that run x 6 failure kinds (panic(string), panic(error), runtime nil dereference, runtime index out of range, panic(int), panic(struct value)). Non-trivial: a run in which a condition or action really failed."
 	rep.Assumptions = append(rep.Assumptions, "single fault per run; the rule in whose evaluation a probe fired is identified from the listener sequence (probe counter between consecutive EvaluateRuleEntry callbacks)")
 }
